@@ -37,7 +37,7 @@ def c17_nontrivial(case, v):
     if k == "trypath":
         # a rebuilt tour that differs from the input path, under the theorems' hypotheses
         return bool(info.get("hyp")) and impl.get("r") is not None and impl.get("r") != case["path"]
-    if k == "lkh":
+    if k in ("lkh", "lkh_pts"):
         return len(case["path"]) >= 4 and impl.get("paths") and impl["paths"][-1] != case["path"]
     if k == "dbscan":
         # at least one cluster and either a second cluster or a point left as noise
@@ -52,7 +52,7 @@ def c17_nontrivial(case, v):
 
 
 PROP = dict(
-    proof_modules=["VrpProofs.C17.Basic", "VrpProofs.C17.Lkh", "VrpProofs.C17.LkhCycle", "VrpProofs.C17.Dbscan", "VrpProofs.C17.KMed", "VrpProofs.C17"], model_modules=["VrpModel.C17"], drv="drv_c17", bin="c17",
+    proof_modules=["VrpProofs.C17.Basic", "VrpProofs.C17.Lkh", "VrpProofs.C17.LkhCycle", "VrpProofs.C17.LkhVisited", "VrpProofs.C17.Dbscan", "VrpProofs.C17.KMed", "VrpProofs.C17"], model_modules=["VrpModel.C17"], drv="drv_c17", bin="c17",
     compare=c17_compare,
     nontrivial=c17_nontrivial,
     timeout={"quick": 1800, "thorough": 14400},
@@ -87,7 +87,10 @@ META = dict(
          "path's first node, every leg is an edge of (tour edges − broken + joined); for a degree-preserving move (no node "
          "with more than two incident edges, n edges) the accepted closed tour uses exactly that edge set and its cost is "
          "old − Σbroken + Σjoined; KOpt::optimize with improve abstracted by its move-level contract never raises the "
-         "closed-tour cost, keeps node set and start node, and terminates. DBSCAN create_clusters — clusters pairwise "
+         "closed-tour cost, keeps node set and start node, and terminates (optimize_terminates: for EXACT costs, every accepted tour strictly "
+         "cheaper; with f64 costs this contract is false - S50 - and the repaired loop, which remembers the accepted tours, terminates for ANY "
+         "improve that returns permutations, whatever the gains: LkhVisited.optimizeV_terminates, at most n! rounds; noMemory_cycles: the "
+         "loop without memory never returns on the S50 shape). DBSCAN create_clusters — clusters pairwise "
          "disjoint, every cluster seeded by a core point of the input, every member density-reachable from the seed, no "
          "core point unclustered (and all neighbours of clustered core points clustered), the fuel bound suffices (the "
          "worklist loop terminates). k-medoids — every return path of calculate is an assignment to the final medoids: a "
@@ -96,7 +99,8 @@ META = dict(
          "partition and decomposes into one valid split per cluster of the previous tier (nearest medoid among siblings), "
          "and passes the executable per-split check. Tie: exact differential run of try_path (hook H7), create_clusters, "
          "the k-medoids assignment and the hierarchy scan against the models; the specifications evaluated by Lean on the "
-         "outputs of the real lkh_optimize, create_clusters, create_kmedoids, create_hierarchical_kmedoids.",
+         "outputs of the real lkh_optimize (integer matrices and - after S50 - Euclidean instances with f64 square-root costs, duplicates and "
+         "mirror-symmetric layouts; termination observed with a time limit), create_clusters, create_kmedoids, create_hierarchical_kmedoids.",
     note=COMMON_NOTE + " Traced, not modelled: the LKH neighbour search order and k-medoids' initial medoid choice "
          "(hash-map / parallel-fold order); their outputs are checked against the proved contract on every case.",
     technique="Lean 4 theorems over executable models (worklist/fuel invariants, counting partitions) + differential "
